@@ -311,3 +311,12 @@ def _ins_et_staging(p):
      table="water_level_staging", row=lambda p: (p[0], p[1]))
 def _ins_wl_staging(p):
     pass
+
+
+# --------------------------------------------------------------------------- simulate_rise
+
+@sql("""SELECT mean_crossing_depth_mm AS dynamic_storage_mm, zeta_mm FROM average_rising_depth ORDER BY zeta_mm""",
+     rows="tuple[real,real]")
+def _q_rise_curve(p, rows):
+    """The measured rise master curve (storage, level), ascending in level (one row per grid level)."""
+    ensures(forall(0, len(rows), lambda j: forall(0, j, lambda i: rows[i][1] < rows[j][1])))
